@@ -1,0 +1,9 @@
+//go:build verif
+
+package internal
+
+// VerifSparseMagic returns the current popcount threshold that selects the dense scan or the
+// find-first-set traversal of the Bit64 iterators (verification hook, build tag `verif`, read-only).
+func VerifSparseMagic() int32 {
+	return sparseMagic.Load()
+}
